@@ -35,6 +35,8 @@ import numpy as np
 F32 = np.float32
 OPSET_VERS = [17, 18, 19, 20, 21]
 
+_GDT = {"f32": np.float32, "f64": np.float64, "i64": np.int64}
+
 UNARY = ["neg", "abs", "relu", "identity", "rmax"]
 BINARY = ["add", "sub", "mul"]
 BOOL1 = ["not"]
@@ -179,6 +181,28 @@ class Realiser:
         self.fn_cache[fi] = f
         return f
 
+    def generic(self, gi):
+        """A function whose Python body looks at the dtype of its argument (one decorator object)."""
+        key = ("generic", gi)
+        if key in self.fn_cache:
+            return self.fn_cache[key]
+        from spox._function import to_function
+
+        gs = self.spec["generics"][gi]
+        op = _opmod(17)
+
+        def pyfun(a):
+            dt = a.unwrap_tensor().dtype
+            if gs["kind"] == "addconst":  # the constant has the argument's dtype: the body depends on the call
+                return [op.add(a, op.constant(value=np.array(1, dtype=dt)))]
+            if gs["kind"] == "castself":  # an attribute depends on the call
+                return [op.cast(op.add(a, a), to=dt)]
+            return [op.mul(a, a)]  # "mulself": the same body whatever the dtype
+
+        f = to_function(gs["name"], gs["domain"])(pyfun)
+        self.fn_cache[key] = f
+        return f
+
     def custom(self, ci):
         """A user-defined operator (one input, one output of the same type), as tests/test_custom_operator.py
         defines one."""
@@ -253,6 +277,16 @@ class Realiser:
                     env.append((r, "f"))
             elif k == "custom":
                 env.append((self.custom(st[1])(env[st[2][0]][0]), "f"))
+            elif k == "callg":
+                # a dtype-generic function called at dtype st[3]: cast in, call, cast back to float32
+                _, gi, ref, dt = st
+                x = env[ref][0]
+                if dt != "f32":
+                    x = op17.cast(x, to=_GDT[dt])
+                (y,) = self.generic(gi)(x)
+                if dt != "f32":
+                    y = op17.cast(y, to=np.float32)
+                env.append((y, "f"))
             elif k == "call":
                 fi, refs = st[1], st[2]
                 args = [env[r][0] for r in refs]
@@ -378,6 +412,12 @@ class NpEval:
                 env.append(np.array(st[1], F32))
             elif k == "custom":
                 env.append(env[st[2][0]])
+            elif k == "callg":
+                _, gi, ref, dt = st
+                x = np.asarray(env[ref]).astype(_GDT[dt])
+                kind = self.spec["generics"][gi]["kind"]
+                y = x + np.array(1, _GDT[dt]) if kind == "addconst" else (x + x if kind == "castself" else x * x)
+                env.append(np.asarray(y).astype(F32))
             elif k == "if":
                 _, c, tb, eb = st[:4]
                 outs = self.body(tb if bool(env[c]) else eb, env, [])
@@ -418,7 +458,7 @@ def np_eval(spec, feeds, by_model_inputs=False):
 
 def _nres(spec, st):
     k = st[0]
-    if k in ("op", "const", "init", "custom"):
+    if k in ("op", "const", "init", "custom", "callg"):
         return 1
     if k == "if":
         return len(st[2]["outs"])
@@ -432,10 +472,26 @@ def _nres(spec, st):
     raise ValueError(st)
 
 
+GENERIC_USES: list = []  # (generic index, dtype) of the live `callg` sites of the last live_calls() run
+
+
+def generic_bodies_differ(spec):
+    """Keys of dtype-generic functions that are used (live) at two dtypes with a dtype-dependent body:
+    the rendered definitions differ, so the build has to raise."""
+    live_calls(spec)
+    by = {}
+    for gi, dt in GENERIC_USES:
+        by.setdefault(gi, set()).add(dt)
+    return [(spec["generics"][gi]["domain"], spec["generics"][gi]["name"]) for gi, dts in by.items()
+            if len(dts) > 1 and spec["generics"][gi]["kind"] != "mulself"]
+
+
 def live_calls(spec):
     """Call sites that end up in the built model: [(func_index, variant)], by liveness from the outputs
     (through control-flow bodies and, for live calls, through the called bodies)."""
     found = []
+    generic_uses = GENERIC_USES
+    del generic_uses[:]
 
     def walk(stmts, base_len, needed):
         starts, n = [], base_len
@@ -451,6 +507,9 @@ def live_calls(spec):
                 needed.update(st[3])
             elif k == "custom":
                 needed.update(st[2])
+            elif k == "callg":
+                needed.add(st[2])
+                generic_uses.append((st[1], st[3]))
             elif k == "if":
                 needed.add(st[1])
                 for body in (st[2], st[3]):
@@ -769,20 +828,24 @@ def run_reference(m, feeds):
     return {o.name: np.asarray(v) for o, v in zip(m.graph.output, outs)}
 
 
-def harvest_names(m):
-    """All value and node names of a built model (to be re-used adversarially as user names)."""
+def harvest_names(m, nested_values_only=False):
+    """All value and node names of a built model (to be re-used adversarially as user names).
+    `nested_values_only`: only value names defined inside bodies (If_0_then_branch__Add_0_C, ...)."""
     names = []
 
-    def walk(g):
+    def walk(g, depth):
+        keep = depth > 0 or not nested_values_only
         for nd in g["nodes"]:
-            if nd["name"]:
+            if nd["name"] and keep and not nested_values_only:
                 names.append(nd["name"])
-            names.extend(o for o in nd["outs"] if o)
+            if keep:
+                names.extend(o for o in nd["outs"] if o)
             for s in nd["subs"]:
-                walk(s)
-        names.extend(g["inputs"])
+                walk(s, depth + 1)
+        if keep:
+            names.extend(g["inputs"])
 
-    walk(proto_to_named(m.graph))
+    walk(proto_to_named(m.graph), 0)
     return list(dict.fromkeys(names))
 
 
@@ -794,12 +857,13 @@ class Gen:
         self.rng = rng
         self.feat = {"if": True, "loop": True, "inline": True, "func": True, "mixed": True,
                      "init": True, "unused": True, "func_in_body": True, "nested_func": True,
-                     "vary": False, "rmax": True, "collide": False, "custom": False}
+                     "vary": False, "rmax": True, "collide": False, "custom": False, "generic": False}
         if feat:
             self.feat.update(feat)
         self.funcs: list[dict] = []
         self.models: list[dict] = []
         self.customs: list[dict] = []
+        self.generics: list[dict] = []
 
     # -- helpers
     def ver(self):
@@ -823,7 +887,14 @@ class Gen:
                 stmts.append(["const", [rng.choice([-1.0, 0.5, 2.0]), rng.choice([1.0, -3.0])]])
                 types.append("f")
                 continue
-            if self.feat["custom"] and r < 0.025 and depth < 3:
+            if self.feat["generic"] and r > 0.93 and not in_func:
+                if not self.generics or rng.random() < 0.3:
+                    self.generics.append({"name": f"gen{len(self.generics)}", "domain": "gen.dom",
+                                          "kind": rng.choice(["addconst", "castself", "mulself"])})
+                stmts.append(["callg", rng.randrange(len(self.generics)), self.pick(types, "f"),
+                              rng.choice(["f32", "f64"])])
+                types.append("f")
+            elif self.feat["custom"] and r < 0.025 and depth < 3:
                 if not self.customs or rng.random() < 0.5:
                     self.customs.append({"ident": rng.choice(["MyOp", "Inline_0__n0", "Inline_0__nw", "Abs",
                                                               "Loop_0_body__Inline_0__n0", "Introduce_0_id"]),
@@ -1038,6 +1109,7 @@ class Gen:
             "funcs": self.funcs,
             "models": self.models,
             "customs": self.customs,
+            "generics": self.generics,
         }
         if not self.feat["unused"]:
             spec["drop"] = False
@@ -1066,6 +1138,8 @@ def spec_stats(spec):
                 st["call"] += 1
             elif s[0] == "custom":
                 st["custom"] = st.get("custom", 0) + 1
+            elif s[0] == "callg":
+                st["callg"] = st.get("callg", 0) + 1
 
     walk(spec["stmts"], 0)
     for f in spec["funcs"]:
@@ -1074,7 +1148,7 @@ def spec_stats(spec):
     return st
 
 
-def rename_adversarial(spec, rng, harvested):
+def rename_adversarial(spec, rng, harvested, nested=()):
     """Replace user-chosen names (build inputs/outputs, inlined-model internals, function names) by
     names harvested from a previous build of the same program / lookalikes of generated names."""
     spec = copy.deepcopy(spec)
@@ -1103,6 +1177,13 @@ def rename_adversarial(spec, rng, harvested):
                 n = fresh_pick()
                 if n:
                     io[0] = n
+        if nested and rng.random() < 0.5:
+            # a value name from inside a body of the first build as a main-graph OUTPUT (or input) name
+            n = rng.choice(list(nested))
+            if rng.random() < 0.8 or not spec["inputs"]:
+                rng.choice(spec["outputs"])[0] = n
+            else:
+                rng.choice(spec["inputs"])[0] = n
         # keep build's dict keys distinct (a Python dict cannot hold duplicates anyway)
         seen = set()
         for io in spec["inputs"] + spec["outputs"]:
